@@ -54,6 +54,7 @@ type vRole struct {
 	ch       chan ton.BlockIDExt
 	cmd      chan uint32 // connection workers
 	lateSeen bool
+	early    time.Duration
 
 	// free-running recorder: the call record is written by the first hook of the call
 	pending   vM
@@ -176,6 +177,9 @@ func (ex *vExec) onHook(r *vRole, ev string, a, b uint64, x any) {
 	case "wait.timeout", "wait.cancel":
 		r.inSel = false
 		r.leftT = time.Now()
+		if ev == "wait.timeout" && r.tmo > 0 && !r.selT.IsZero() && r.leftT.Sub(r.selT) < r.tmo-2*time.Millisecond {
+			r.early = r.tmo - r.leftT.Sub(r.selT) // a timeout before the timeout has elapsed
+		}
 	}
 	if !ex.gating.Load() || vPass[ev] {
 		r.cond.Broadcast()
@@ -488,7 +492,13 @@ func (ex *vExec) settleRole(step int, r *vRole, loc string, d time.Duration) *di
 		}
 	case loc == "select":
 		if !r.await(d, func() bool { return r.inSel && r.at == "" && !r.ret }) {
-			return &divergence{step, "position", fmt.Sprintf("%s expected in its select, is %s", r.name, r.where())}
+			kind := "position"
+			if r.where() == "@wait.timeout" {
+				// the real timer fired before the model clock got there: the replayer was slower than real time
+				// (whether the timer fired before its own duration had passed is judged separately: "early")
+				kind = "overrun"
+			}
+			return &divergence{step, kind, fmt.Sprintf("%s expected in its select, is %s", r.name, r.where())}
 		}
 	case loc == "blocked":
 		time.Sleep(4 * time.Millisecond)
@@ -722,6 +732,17 @@ func (ex *vExec) exec(sc *vScript) vM {
 	hang := ex.finale(&late)
 	if len(late) > 0 {
 		res["late"] = late
+	}
+	var early []vM
+	for i, r := range ex.ws {
+		r.mu.Lock()
+		if r.early > 0 {
+			early = append(early, vM{"w": i + 1, "timeout_ms": r.tmo.Milliseconds(), "early_by_ms": r.early.Milliseconds()})
+		}
+		r.mu.Unlock()
+	}
+	if len(early) > 0 {
+		res["early"] = early
 	}
 	if hang != nil {
 		res["hang"] = hang
